@@ -76,6 +76,10 @@ def gen_universe(rng):
                 m["effects"].append(dict(k="setattr", target=tgt, attr=rng.choice(SUBS + MEMS), tag="ef%d" % neff[0]))
             else:
                 m["effects"].append(dict(k="sysmod", target=tgt, tag="px%d" % neff[0]))
+        if rng.random() < 0.05:
+            # a member that IS a registered module (`from m import x` then yields sys.modules[...])
+            src = rng.choice(paths)
+            m["effects"].append(dict(k="alias", attr=rng.choice([src.split(".")[0], src.split(".")[-1]]), src=src))
     return mods
 
 
@@ -329,6 +333,8 @@ def module_source(m):
         if e["k"] == "setattr":
             out.append("_m = _sys.modules.get(%r)\nif _m is not None:\n    setattr(_m, %r, _T(%r))\n"
                        % (e["target"], e["attr"], e["tag"]))
+        elif e["k"] == "alias":
+            out.append("_m = _sys.modules.get(%r)\nif _m is not None:\n    %s = _m\n" % (e["src"], e["attr"]))
         else:
             out.append("_o = _sys.modules.get(%r)\n"
                        "if _o is not None:\n"
@@ -375,8 +381,12 @@ class ExtEq(Ext):
     __hash__ = object.__hash__
 
 
+_EXTRA_HEADS = set()      # heads of real (stdlib) modules a corpus case wants recorded, e.g. {"xml"}
+
+
 def _is_universe_name(name):
-    return name.split(".")[0] in ALLNAMES
+    h = name.split(".")[0]
+    return h in ALLNAMES or h in _EXTRA_HEADS
 
 
 def _stored_name(code):
@@ -540,7 +550,7 @@ def describe(o):
 
 def _purge():
     for k in list(sys.modules):
-        if _is_universe_name(k):
+        if k.split(".")[0] in ALLNAMES:
             del sys.modules[k]
     importlib.invalidate_caches()
 
@@ -611,7 +621,9 @@ def run_history(case, scratch_base):
     from pyflyby._modules import ModuleHandle
 
     uni = case["universe"]
-    paths = [m["path"] for m in uni]
+    paths = [m["path"] for m in uni] + list(case.get("stdlib_heads", []))
+    _EXTRA_HEADS.clear()
+    _EXTRA_HEADS.update(case.get("stdlib_heads", []))
     root = tempfile.mkdtemp(prefix="u", dir=scratch_base)
     old_dwb = sys.dont_write_bytecode
     sys.dont_write_bytecode = True
@@ -651,6 +663,8 @@ def run_history(case, scratch_base):
                     d[k] = o
                 elif v["k"] == "none":
                     d[k] = None
+                elif v["k"] == "stdlib":
+                    d[k] = importlib.import_module(v["mod"])       # a real module (corpus cases only)
                 else:
                     d[k] = (ExtEq if v.get("eq") else Ext)(v["id"])
             nss.append(d)
@@ -736,6 +750,7 @@ def run_history(case, scratch_base):
                 co["run"] = _child_report(child).get("run")
         return obs
     finally:
+        _EXTRA_HEADS.clear()
         try:
             sys.path.remove(root)
         except ValueError:
@@ -783,10 +798,12 @@ def oracle_c06(case, obs):
     fails = []
     if "db_err" in obs:
         return fails
+    reg_now = obs["reg0"]
     for ci, co in enumerate(obs["calls"]):
         call = case["calls"][ci]
         if call["kind"] == "newcell":
             continue
+        reg_before, reg_now = reg_now, co["reg"]
         before, after = co["before"], co["after"]
         tgt = target_index(case, call)
         # -- never rebinds, shadows or deletes an existing name, in every namespace (also at every attempt)
@@ -826,8 +843,11 @@ def oracle_c06(case, obs):
                 outer = [(ni, e) for ni, b in enumerate(before) for e in b if e[0] == k]
                 if outer:
                     same = all(e[2] == i for _, e in outer)
+                    regm = reg_before["mods"].get(k)
                     fails.append(dict(what="added a name that was bound in another given namespace (shadowing)",
-                                      name=k, same_object=same, ns=[ni for ni, _ in outer], **_ctx(case, ci, co)))
+                                      name=k, same_object=same, ns=[ni for ni, _ in outer],
+                                      outer_is_registry_module=bool(regm) and all(e[2] == regm[1] for _, e in outer),
+                                      **_ctx(case, ci, co)))
         # -- each added name is bound to exactly the object that executing an attempted import statement yielded
         for k, d, i in added[tgt]:
             ys = [e for _, e in stmts if e[3] == k]
@@ -855,6 +875,8 @@ def oracle_c06(case, obs):
                 for cj in range(ci, len(obs["calls"])):
                     if case["calls"][cj]["kind"] == "newcell":
                         break                                       # the cell ends here
+                    if not raises and "try" in (call["kind"], case["calls"][cj]["kind"]):
+                        continue       # a direct `_try_import` has no cell: only the raising case is remembered
                     for k2, e2 in _stmt_events(obs["calls"][cj]):
                         if event_key(e2) == key and (cj > ci or k2 > ei):
                             again = cj
@@ -947,8 +969,8 @@ def _module_exists_on_disk(case, top):
 # ----------------------------------------------------------------------------
 
 def model_request(case, obs):
-    if "db_err" in obs:
-        return []
+    if "db_err" in obs or case.get("stdlib_heads"):
+        return []           # cases over real stdlib modules are oracle-only
     calls = []
     for call, co in zip(case["calls"], obs["calls"]):
         if call["kind"] == "newcell":
